@@ -270,6 +270,13 @@ class PROP(PropCheck):
             ("ex", ["M", "S", "L", "L", "M", "L", "L", "M"]),
             ("", ["S"]), ("\n", ["S"]), ("nn", ["S"]), ("n\r", ["S"]), ("#\r\nn\r\n", ["S", "M"]),
             ("w..\n#", ["M", "Cleft", "L", "M", "S"]),
+            # every checkpoint digit 1..9 collected in order, then the goal; and the same with 9 missing / visited too early
+            ("e123456789x", ["M"] * 10 + ["S"]), ("e12345678x", ["M"] * 9 + ["S"]), ("e9x", ["M", "S", "M", "S"]),
+            ("e9 1x", ["M", "M", "M", "S", "M", "S"]), ("s\n1\n2\n9\nx", ["M", "M", "M", "S", "M", "S"]),
+            # the west edge from every row, asked in all four relative directions
+            ("#..\nw..\n...", ["Cforward", "Cleft", "Cright", "Cbackward", "S", "M"]),
+            ("...\n...\nn..", ["Cleft", "L", "Cforward", "S", "M"]), ("...\ns..", ["Cright", "R", "Cforward", "M"]),
+            (".#\ne.", ["Cbackward", "L", "L", "Cforward", "M"]),
         ]
         return [Case(program(g, c), meta={"grid": g, "cmds": c}, kind="corpus") for g, c in fixed]
 
